@@ -76,7 +76,7 @@ def explore_generic(
     byid = {n.id: n for n in nodes}
     res = dict(states=0, transitions=0, executions=0, distinct_count=0, violations=[], samples=[], caps=[])
     for engine in engines:
-        h = Harness(cfg, with_plugin=True, with_subscriber=True, extra_guards=guard_impls)
+        h = Harness(cfg, with_plugin=True, with_subscriber=True, extra_guards=guard_impls, yielding=(engine == "async"))
         viol: List[Dict[str, Any]] = []
 
         def flag(clause, obs, hist, ev, conf, engine=engine):
@@ -194,7 +194,7 @@ def run_unit(unit) -> Dict[str, Any]:
 
 def replay_generic(cfg, nodes, payload, guard_impls=None) -> List[Dict[str, Any]]:
     byid = {n.id: n for n in nodes}
-    h = Harness(cfg, with_plugin=True, with_subscriber=True, extra_guards=guard_impls)
+    h = Harness(cfg, with_plugin=True, with_subscriber=True, extra_guards=guard_impls, yielding=(payload["engine"] == "async"))
     d = h.driver(payload["engine"])
     d.start()
     out = []
